@@ -113,7 +113,11 @@ NoObs == [rep |-> <<>>, recs |-> <<>>, logs |-> {}, closed |-> FALSE]
 (*                        matching event of the registration period not sent    *)
 (*  C25_q_done            a query stream without exactly one final "done"       *)
 (*                        (judged at close) or with a record after it           *)
-NewM == [ reqs |-> {}, regs |-> <<>>, evs |-> <<>>, qs |-> {}, qdone |-> {}, mons |-> {}, bad |-> {} ]
+(*  C25_q_bogus_record    an ack / response record (nobody answers the queries  *)
+(*                        of these traces; tag closed_channel_zero_value when   *)
+(*                        From is empty).  The query stream itself is modelled  *)
+(*                        in IPCQuery.tla.                                      *)
+NewM == [ reqs |-> {}, regs |-> <<>>, evs |-> <<>>, qs |-> {}, qdone |-> {}, mons |-> {}, bad |-> {}, tags |-> {} ]
 
 EventsOf(a) ==
   CASE a.a = "emit"  -> a.evs
@@ -171,9 +175,13 @@ MonStep(m, a, o) ==
                    \/ \E i, j \in DOMAIN qrecs : i < j /\ qrecs[i].seq = qrecs[j].seq /\ qrecs[i].k = "done"
                    \/ (a.a = "close" /\ ~(qs2 \subseteq (m.qdone \cup doneNow)))
                 THEN {"C25_q_done"} ELSE {}
+      \* no node ever answers the queries of this family of traces: every ack / response record is unreal
+      unreal == { i \in DOMAIN qrecs : qrecs[i].k # "done" }
+      b7     == IF unreal # {} THEN {"C25_q_bogus_record"} ELSE {}
   IN [ reqs |-> reqs2, regs |-> regs2, evs |-> evs2, qs |-> qs2,
+       tags |-> m.tags \cup (IF unreal # {} /\ \A i \in unreal : qrecs[i].n = 0 THEN {"closed_channel_zero_value"} ELSE {}),
        qdone |-> (IF a.a = "query" THEN m.qdone \ {a.seq} ELSE m.qdone) \cup doneNow,
-       mons |-> mons2, bad |-> m.bad \cup b1 \cup b2 \cup b3 \cup b4 \cup b5 \cup b6 ]
+       mons |-> mons2, bad |-> m.bad \cup b1 \cup b2 \cup b3 \cup b4 \cup b5 \cup b6 \cup b7 ]
 
 ------------------------------------------------------------------------------
 (* Actions *)
